@@ -11,10 +11,12 @@ from __future__ import annotations
 import ast
 import os
 import random
+import re
 import tempfile
 
 from .. import core
 from ..core import Family
+from ..sim import fs_live as LV
 from ..sim import fs_tree as T
 
 ID = "C02"
@@ -127,51 +129,213 @@ class _Transport:
 _canon_response = T.canon_response
 
 
-def run_static(case, proto_sample: int = 3):
+def _ask(h, built, paths, proto_sample: int = 3):
+    """every request path through the real handler `h` (the first few also through the real server protocol
+    around the same handler), judged against the tree `built` holds at this moment"""
     from nauyaca.protocol.request import GeminiRequest
-    from nauyaca.server.handler import StaticFileHandler
     from nauyaca.server.protocol import GeminiServerProtocol
+
+    res = []
+    for i, sp in enumerate(paths):
+        o = {}
+        try:
+            req = GeminiRequest.from_line("gemini://h" + sp)
+        except ValueError:
+            req = None
+            o["r"], o["x"] = ["reject"], {"st": 59, "sent": [], "metasent": [], "mark": False, "nobody": True}
+        if req is not None:
+            try:
+                r = h.handle(req)
+                o["r"], o["x"] = _canon_response(r.status, r.meta, r.body, req.path, built)
+                o["r"] = [req.path] + o["r"]
+            except Exception as e:  # noqa: BLE001  (the handler raised: the protocol layer answers 40)
+                o["r"], o["x"] = [req.path, "raised"], {"st": 40, "sent": T.sentinels_in(str(e)), "metasent": T.sentinels_in(str(e)),
+                                                        "mark": False, "nobody": True, "exc": type(e).__name__}
+        if i < proto_sample:
+            # the same request through the real server protocol on a fake transport
+            tr = _Transport()
+            p = GeminiServerProtocol(h.handle)
+            p.connection_made(tr)
+            try:
+                p.data_received(("gemini://h" + sp).encode("utf-8") + b"\r\n")
+            except Exception as e:  # noqa: BLE001  (the protocol itself raised: nothing well-formed was sent)
+                tr.out = b"00 protocol raised " + type(e).__name__.encode() + b"\r\n"
+            st, meta, btxt = T.parse_wire(tr.out)
+            pr, px = _canon_response(st, meta, btxt, req.path if req is not None else "/", built)
+            o["p"], o["px"] = pr, px
+            o["pclosed"] = tr.closed
+        res.append(o)
+    return res
+
+
+def run_static(case, proto_sample: int = 3):
+    from nauyaca.server.handler import StaticFileHandler
 
     with T.Built(case["tree"]) as built:
         h = StaticFileHandler(built.root, default_indices=case.get("indices"), enable_directory_listing=bool(case["listing"]),
                               max_file_size=case.get("max"))
-        res = []
-        for i, sp in enumerate(case["paths"]):
-            o = {}
-            try:
-                req = GeminiRequest.from_line("gemini://h" + sp)
-            except ValueError:
-                req = None
-                o["r"], o["x"] = ["reject"], {"st": 59, "sent": [], "metasent": [], "mark": False, "nobody": True}
-            if req is not None:
-                try:
-                    r = h.handle(req)
-                    o["r"], o["x"] = _canon_response(r.status, r.meta, r.body, req.path, built)
-                    o["r"] = [req.path] + o["r"]
-                except Exception as e:  # noqa: BLE001  (the handler raised: the protocol layer answers 40)
-                    o["r"], o["x"] = [req.path, "raised"], {"st": 40, "sent": T.sentinels_in(str(e)), "metasent": T.sentinels_in(str(e)),
-                                                            "mark": False, "nobody": True, "exc": type(e).__name__}
-            if i < proto_sample:
-                # the same request through the real server protocol on a fake transport
-                tr = _Transport()
-                p = GeminiServerProtocol(h.handle)
-                p.connection_made(tr)
-                try:
-                    p.data_received(("gemini://h" + sp).encode("utf-8") + b"\r\n")
-                except Exception as e:  # noqa: BLE001  (the protocol itself raised: nothing well-formed was sent)
-                    tr.out = b"00 protocol raised " + type(e).__name__.encode() + b"\r\n"
-                st, meta, btxt = T.parse_wire(tr.out)
-                pr, px = _canon_response(st, meta, btxt, req.path if req is not None else "/", built)
-                o["p"], o["px"] = pr, px
-                o["pclosed"] = tr.closed
-            res.append(o)
+        res = _ask(h, built, case["paths"], proto_sample)
         return {"res": res, "outside": built.outside_ids(), "indices": list(h.default_indices), "max": h.max_file_size,
                 "ents": built.ents, "ents_ok": built.ents == [list(e) for e in case["tree"]]}
+
+
+def run_sequence(case, proto_sample: int = 3):
+    """ONE handler object over a document tree that is edited between the rounds of requests"""
+    from nauyaca.server.handler import StaticFileHandler
+
+    rounds = case["rounds"]
+    with LV.Live(rounds[0]["tree"]) as built:
+        h = StaticFileHandler(built.root, default_indices=case.get("indices"), enable_directory_listing=bool(case["listing"]),
+                              max_file_size=case.get("max"))
+        out = []
+        for k, rd in enumerate(rounds):
+            if k:
+                built.morph(rd["tree"])
+            ok = built.ents == [list(e) for e in rd["tree"]] and built.as_described()
+            outside = built.outside_ids()      # judged on the disk as it is now
+            res = _ask(h, built, rd["paths"], proto_sample)
+            out.append({"res": res, "outside": outside, "ents": [list(e) for e in built.ents], "ents_ok": ok})
+        return {"rounds": out, "indices": list(h.default_indices), "max": h.max_file_size}
+
+
+# ----------------------------------------------------------------------------------------------
+# names and spellings for the completeness half of the property
+# ----------------------------------------------------------------------------------------------
+def _esc_len(name: str) -> int:
+    try:
+        return len(T.quote_all(name))
+    except UnicodeEncodeError:      # undecodable name: it has no spelling in a request line
+        return 0
+
+
+# legal names (<= 255 bytes of UTF-8) whose escaped spelling is much longer than 255 characters, names on both sides
+# of "escaped length 255/256" and of "255/256 bytes" (the latter cannot be created: `settle` drops them, requests
+# and link targets still use them)
+LONG_NAMES = ["é" * 100, "日" * 80, "a bcd" * 40, "é" * 100 + ".gmi", "\U0001f600" * 60, "x y" * 60 + ".gmi",
+              "a" * 254, "a" * 255, "a" * 256, "é" * 127, "é" * 127 + "a", "é" * 128, "日" * 85, "日" * 85 + "a",
+              "a" * 249 + "é", "a" * 250 + "é", "a" * 126 + " " + "a" * 126, "a" * 127 + " " + "a" * 126, "é" * 42 + "aaa", "é" * 42 + "aaaa", "é" * 43,
+              "日" * 28 + "aaa", "日" * 28 + "aaaa", "日" * 29, "%" * 85, "%" * 86, "e\u0301" * 60]
+NAMES = T.NAMES * 3 + LONG_NAMES          # about one generated name in six is a long one
+
+
+def _own_requests(rel_inside: str):
+    """[literal, fully escaped with upper-case hex, fully escaped with lower-case hex] spelling of an entry's own path
+    (RFC 3986: every byte outside `unreserved` escaped); [] for a name that is not UTF-8"""
+    lit, enc = T.own_spellings(rel_inside)
+    if enc is None:
+        return []
+    return [lit, enc, re.sub("%[0-9A-F]{2}", lambda m: m.group(0).lower(), enc)]
+
+
+_HEX = set("0123456789abcdefABCDEF")
+
+
+def _seg_bytes(seg: str):
+    """the bytes an RFC 3986 path segment stands for (None: a stray `%`, or text that is not UTF-8)"""
+    out, i = bytearray(), 0
+    while i < len(seg):
+        c = seg[i]
+        if c == "%":
+            if i + 2 < len(seg) and seg[i + 1] in _HEX and seg[i + 2] in _HEX:
+                out.append(int(seg[i + 1:i + 3], 16))
+                i += 3
+                continue
+            return None
+        try:
+            out += c.encode("utf-8")
+        except UnicodeEncodeError:
+            return None
+        i += 1
+    return bytes(out)
+
+
+def _denotes(upath: str, rel_inside: str):
+    """does the URL path spell exactly the entry's own path - every segment the name itself, written literally,
+    percent-encoded, or partly so (RFC 3986 §2.1/§6.2.2.2: the spellings are equivalent)?  -> None | how"""
+    names = rel_inside.split("/")
+    segs = upath.split("/")
+    if not upath.startswith("/") or len(segs) != len(names) + 1:
+        return None
+    try:
+        want = [n.encode("utf-8") for n in names]
+    except UnicodeEncodeError:
+        return None
+    for s, w in zip(segs[1:], want):
+        if _seg_bytes(s) != w:
+            return None
+    if "%" not in upath:
+        return "literal"
+    return "percent-encoded" if upath == "/" + "/".join(T.quote_all(n) for n in names) or upath == _own_requests(rel_inside)[2] else "partly percent-encoded"
 
 
 def _plain_inside_files(ents):
     """regular files inside the root reached without any symlink (their parents are real directories)"""
     return [e for e in ents if e[0] == "f" and e[1].startswith("root/")]
+
+
+def _requests(rng, tree, n, own_p=0.3):
+    """request paths aimed at a tree: the general mix of `fs_tree.spellings`, plus - for every plain file with a long
+    name on its path, and for a share of the others - its own path written literally and fully escaped in both hex cases"""
+    paths = T.spellings(rng, tree, n)
+    own = []
+    for e in _plain_inside_files(tree):
+        rel = e[1][len("root/"):]
+        long_ = any(_esc_len(c) > 200 or len(c) > 150 for c in rel.split("/"))
+        if long_ or rng.random() < own_p:
+            sp = [x for x in _own_requests(rel) if len(x.encode("utf-8")) <= 1012]
+            own.append(sp if long_ or rng.random() < 0.4 else sp[-1:])
+    rng.shuffle(own)
+    for sp in own[:5]:
+        for x in sp:
+            paths.insert(rng.randint(0, len(paths)), x)
+    return paths
+
+
+def _judge(paths, res, ents, outside, mx, when=""):
+    """the property, evaluated on the answers to `paths` against the tree `ents` the requests met"""
+    outside = set(outside)
+    files = {e[2]: e for e in ents if e[0] == "f"}
+    plain = [e for e in _plain_inside_files(ents) if e[3] and e[4] <= mx]
+    for sp, o in zip(paths, res):
+        for lvl, r, x in (("handler", o["r"], o["x"]),) + ((("wire", o["p"], o["px"]),) if "p" in o else ()):
+            leaked = sorted(set(x["sent"]) & outside)
+            if leaked:
+                return ("outside-content", f"{when}{lvl}: request {_short(sp)} -> response contains the content of file(s) {[files[i][1] for i in leaked]} whose real path lies outside the document root")
+            if x["mark"]:
+                return ("outside-listing", f"{when}{lvl}: request {_short(sp)} -> response shows entries of a directory outside the document root")
+            if x["st"] != 20:
+                if not x["nobody"]:
+                    return ("error-with-body", f"{when}{lvl}: request {_short(sp)} -> status {x['st']} with a body")
+                if x["metasent"]:
+                    return ("error-leaks-content", f"{when}{lvl}: request {_short(sp)} -> status {x['st']} whose meta contains file content")
+            elif "unknown" in r:
+                return ("unknown-success", f"{when}{lvl}: request {_short(sp)} -> 20 with a body that is neither a known file nor a listing: {r}")
+        # completeness: the own path of a plain regular file, written literally, percent-encoded (every byte outside
+        # `unreserved` escaped, either hex case) or partly percent-encoded
+        u = T.url_path(sp)
+        if u[0] != "ok" or not plain:
+            continue
+        for e in plain:
+            how = _denotes(u[1], e[1][len("root/"):])
+            if how is None:
+                continue
+            want = ["20", "file", e[2]]
+            if o["r"][1:4] != want:
+                return ("unreachable", f"{when}regular file {_short(e[1])} (inside the root, no symlink on its path, UTF-8, {e[4]} bytes; name of "
+                        f"{len(e[1].rsplit('/', 1)[-1].encode())} bytes) requested by its own {how} path {_short(sp)} -> {o['r'][1:]}")
+            if "p" in o and o["p"][:3] != want:
+                return ("unreachable", f"{when}wire: regular file {_short(e[1])} requested by its own {how} path {_short(sp)} -> {o['p']}")
+    return None
+
+
+def _short(s: str) -> str:
+    """repr of a path, long runs of one repeated unit folded so that the message stays readable"""
+    r = repr(s)
+    if len(r) <= 90:
+        return r
+    m = re.sub(r"(.{1,9}?)\1{5,}", lambda g: "%s{x%d}" % (g.group(1), len(g.group(0)) // len(g.group(1))), s)
+    r = repr(m)
+    return r if len(r) <= 140 else r[:100] + "..." + r[-30:] + f" ({len(s)} chars)"
 
 
 class Static(Family):
@@ -182,11 +346,11 @@ class Static(Family):
     def gen(self, rng: random.Random, n: int):
         for i in range(n):
             small = i % 5 == 0
-            tree = T.settle(T.gen_tree(rng, max_nodes=14 if small else 25))
+            tree = T.settle(T.gen_tree(rng, max_nodes=14 if small else 25, names=NAMES))
             listing = rng.random() < 0.5
             indices = None if rng.random() < 0.8 else rng.choice([["index.gmi"], ["f.gmi", "index.gmi"], ["index.gemini", "index.gmi", "a"]])
             mx = None if rng.random() < 0.6 else 300
-            yield {"tree": tree, "listing": int(listing), "indices": indices, "max": mx, "paths": T.spellings(rng, tree, 10)}
+            yield {"tree": tree, "listing": int(listing), "indices": indices, "max": mx, "paths": _requests(rng, tree, 10)}
 
     def setup(self):
         from nauyaca.protocol.constants import DEFAULT_MAX_FILE_SIZE, MAX_REQUEST_SIZE
@@ -236,40 +400,7 @@ class Static(Family):
         return True
 
     def oracle(self, case, obs):
-        outside = set(obs["outside"])
-        files = {e[2]: e for e in obs["ents"] if e[0] == "f"}
-        mx = obs["max"]
-        for sp, o in zip(case["paths"], obs["res"]):
-            for lvl, r, x in (("handler", o["r"], o["x"]),) + ((("wire", o["p"], o["px"]),) if "p" in o else ()):
-                leaked = sorted(set(x["sent"]) & outside)
-                if leaked:
-                    return ("outside-content", f"{lvl}: request {sp!r} -> response contains the content of file(s) {[files[i][1] for i in leaked]} whose real path lies outside the document root")
-                if x["mark"]:
-                    return ("outside-listing", f"{lvl}: request {sp!r} -> response shows entries of a directory outside the document root")
-                if x["st"] != 20:
-                    if not x["nobody"]:
-                        return ("error-with-body", f"{lvl}: request {sp!r} -> status {x['st']} with a body")
-                    if x["metasent"]:
-                        return ("error-leaks-content", f"{lvl}: request {sp!r} -> status {x['st']} whose meta contains file content")
-                elif "unknown" in r:
-                    return ("unknown-success", f"{lvl}: request {sp!r} -> 20 with a body that is neither a known file nor a listing: {r}")
-            # completeness: the own path of a plain regular file, literal or percent-encoded
-            u = T.url_path(sp)
-            if u[0] != "ok":
-                continue
-            for e in _plain_inside_files(obs["ents"]):
-                lit, enc = T.own_spellings(e[1][len("root/"):])
-                is_lit = u[1] == lit and "%" not in lit
-                is_enc = enc is not None and u[1] == enc
-                if not (is_lit or is_enc) or not e[3] or e[4] > mx:
-                    continue
-                want = ["20", "file", e[2]]
-                if o["r"][1:4] != want:
-                    return ("unreachable", f"regular file {e[1]!r} (inside the root, no symlink on its path, UTF-8, {e[4]} bytes) requested by its own "
-                            f"{'literal' if is_lit else 'percent-encoded'} path {sp!r} -> {o['r'][1:]}")
-                if "p" in o and o["p"][:3] != want:
-                    return ("unreachable", f"wire: regular file {e[1]!r} requested by its own path {sp!r} -> {o['p']}")
-        return None
+        return _judge(case["paths"], obs["res"], obs["ents"], obs["outside"], obs["max"])
 
     def key(self, case, obs):
         ks = set()
@@ -291,6 +422,151 @@ class Static(Family):
         if links and not feat:
             feat = "L"
         return (feat or "-") + "|" + ",".join(sorted(ks))[:70]
+
+
+class Sequence(Family):
+    """ONE long-lived `StaticFileHandler` (and the real server protocol around it) while the document tree is edited:
+    rounds of requests, between them an entry or a directory above it is replaced by a symlink leading outside or
+    inside the root, removed, re-created as another kind, swapped with another, created.  Every answer is judged - by
+    the oracle and by the Lean model, which keeps no state - against the tree as it is on disk at that moment."""
+    name = "sequence"
+    quick_n = 1200
+    thorough_n = 24000
+
+    setup = Static.setup
+
+    def gen(self, rng: random.Random, n: int):
+        for i in range(n):
+            tree = T.settle(T.gen_tree(rng, max_nodes=13 if i % 3 else 20, names=NAMES if rng.random() < 0.5 else T.NAMES))
+            trees, did, touched = [tree], [[]], []
+            floor = 8
+            for _ in range(rng.choice([1, 1, 1, 2, 2, 3])):
+                if len(trees) >= 2 and rng.random() < 0.2:
+                    j = rng.randrange(len(trees) - 1)          # everything is put back the way it was
+                    trees.append(trees[j])
+                    did.append([f"the tree of round {j} is restored"])
+                    continue
+                cur, notes = trees[-1], []
+                for _ in range(rng.choice([1, 1, 2, 3])):
+                    floor = max([floor] + [e[2] + 1 for t in trees for e in t if e[0] == "f"] + [e[2] + 1 for e in cur if e[0] == "f"])
+                    cur, tp, kind, note = LV.mutate(rng, cur, NAMES, floor)
+                    touched += tp
+                    notes.append(note)
+                trees.append(T.settle(T.normalise(cur)))
+                did.append(notes)
+            # the same requests in every round: the paths of what was edited (and of what lies below it, before or
+            # after), as they are and with a trailing slash, on top of the general mix
+            aimed = []
+            for p in dict.fromkeys(touched):
+                if not p.startswith("root/"):
+                    continue
+                rel = p[len("root/"):]
+                sp = _own_requests(rel)
+                if not sp:
+                    continue
+                aimed.append(sp[0])
+                k = rng.random()
+                if k < 0.3:
+                    aimed.append(sp[0] + "/")
+                elif k < 0.45:
+                    aimed.append(sp[rng.randint(1, 2)])
+                elif k < 0.55:
+                    aimed.append(sp[0] + "/" + rng.choice(["index.gmi", "..", ".", "a"]))
+            aimed = [a for a in aimed if len(a.encode("utf-8")) <= 1012]
+            rng.shuffle(aimed)
+            common = aimed[:10] + _requests(rng, tree, 4, own_p=0.15)
+            rng.shuffle(common)
+            rounds = []
+            for k, t in enumerate(trees):
+                extra = _requests(rng, t, 2, own_p=0.1) if k else []
+                rounds.append({"tree": t, "did": did[k], "paths": common + extra})
+            listing = rng.random() < 0.6
+            indices = None if rng.random() < 0.85 else rng.choice([["index.gmi"], ["f.gmi", "index.gmi"]])
+            yield {"listing": int(listing), "indices": indices, "max": None if rng.random() < 0.8 else 300, "rounds": rounds}
+
+    def impl(self, case):
+        return run_sequence(case)
+
+    def model(self, case):
+        idx = case.get("indices") or self.def_idx
+        mx = case.get("max") or self.def_max
+        f = ["seq", str(case["listing"]), "/".join(T.enc_name(i) for i in idx), str(mx)]
+        for rd in case["rounds"]:
+            f += ["T", T.enc_tree(rd["tree"]), T.enc_metas(rd["tree"])]
+            for sp in rd["paths"]:
+                u = T.url_path(sp)
+                f.append(T.enc_name(u[1]) if u[0] == "ok" else "!")
+        return "\t".join(f)
+
+    def expect(self, case, out):
+        assert out.startswith("ok "), out
+        outs = out[3:].split(" | ")
+        assert len(outs) == sum(len(rd["paths"]) for rd in case["rounds"]), out[:200]
+        res, at = [], 0
+        for rd in case["rounds"]:
+            one = []
+            for sp, o in zip(rd["paths"], outs[at:at + len(rd["paths"])]):
+                u = T.url_path(sp)
+                one.append(["reject"] if u[0] != "ok" else [u[1]] + T.parse_static_out(o))
+            at += len(rd["paths"])
+            res.append(one)
+        return res
+
+    def same(self, expected, obs):
+        if len(expected) != len(obs["rounds"]):
+            return False
+        for exp, rd in zip(expected, obs["rounds"]):
+            if not rd["ents_ok"] or exp != [o["r"] for o in rd["res"]]:
+                return False
+            for e, o in zip(exp, rd["res"]):
+                if "p" in o and o["p"] != _wire_of(e):
+                    return False
+        return True
+
+    def oracle(self, case, obs):
+        for k, (rd, ob) in enumerate(zip(case["rounds"], obs["rounds"])):
+            when = "" if k == 0 else f"one handler, round {k} after {'; '.join(rd.get('did') or ['an edit of the tree'])[:150]} - "
+            v = _judge(rd["paths"], ob["res"], ob["ents"], ob["outside"], obs["max"], when)
+            if v is not None:
+                return v
+        return None
+
+    def key(self, case, obs):
+        kinds = set()
+        for rd in case["rounds"][1:]:
+            for d in rd.get("did") or []:
+                kinds.add("out" if "outside the root" in d else "in" if "inside the root" in d else "restore" if "restored" in d
+                          else "swap" if "change places" in d else "rm" if d.endswith("removed") else "new" if d.startswith("new ") else "re")
+        # did any path change its answer between two rounds?
+        moved = set()
+        rs = obs["rounds"]
+        for a, b in zip(rs, rs[1:]):
+            for x, y in zip(a["res"], b["res"]):
+                if x["r"][1:3] != y["r"][1:3]:
+                    moved.add(f"{':'.join(str(t) for t in x['r'][1:3])}>{':'.join(str(t) for t in y['r'][1:3])}")
+        return ",".join(sorted(kinds)) + "|" + ",".join(sorted(moved))[:60]
+
+    def shrink(self, case, bad):
+        """fewer rounds, then a single request path asked in every round"""
+        cur = case
+        try:
+            while len(cur["rounds"]) > 2:
+                for j in range(1, len(cur["rounds"]) - 1):
+                    c = dict(cur, rounds=cur["rounds"][:j] + cur["rounds"][j + 1:])
+                    c["rounds"][j] = dict(c["rounds"][j], did=cur["rounds"][j]["did"] + cur["rounds"][j + 1]["did"])
+                    if bad(c):
+                        cur = c
+                        break
+                else:
+                    break
+            seen = list(dict.fromkeys(sp for rd in cur["rounds"] for sp in rd["paths"]))
+            for sp in seen[:40]:
+                c = dict(cur, rounds=[dict(rd, paths=[sp]) for rd in cur["rounds"]])
+                if bad(c):
+                    return c
+        except Exception:  # noqa: BLE001
+            pass
+        return cur
 
 
 def _wire_of(e):
@@ -446,4 +722,4 @@ class Realpath(Family):
         return "skip" if obs["r"] is None else obs["r"][1].split("@")[0][:4] + (":links" if any(e[0] == "l" for e in case["tree"]) else "")
 
 
-FAMILIES = [Static(), CanonFam(), Realpath()]
+FAMILIES = [Static(), Sequence(), CanonFam(), Realpath()]
